@@ -1,0 +1,236 @@
+#![allow(dead_code)]
+//! Verification seams (feature `__verif`, off by default).
+//!
+//! Nothing in here is compiled unless the crate is built with the cargo feature
+//! `__verif` (or `__verif_lib`, which implies it). The shipped crate is unchanged.
+//!
+//! * [`HashMap`] is a thin newtype over `std::collections::HashMap` whose hasher is
+//!   chosen by a per-thread *hash plan* instead of by `RandomState`. With no plan set
+//!   it behaves exactly like the std map (a fresh `RandomState` per map).
+//! * The plan is set either through [`set_hash_plan`] (in-process simulation) or
+//!   through the environment variable `ENUM_TOOLS_VERIF_HASH=<strategy>:<seed>`
+//!   (read once per thread, used by real `rustc` processes).
+//! * `ENUM_TOOLS_VERIF_DUMP=<file>`: append one line `ident \t expansion` per
+//!   successful expansion (see `dump_expansion`).
+
+use std::borrow::Borrow;
+use std::cell::RefCell;
+use std::collections::hash_map::RandomState;
+use std::hash::{BuildHasher, Hash, Hasher};
+
+/// How the keys of the next maps created on this thread are hashed.
+#[derive(Clone, Copy, Debug, PartialEq, Eq)]
+pub enum Strategy {
+    /// SipHash with a chosen key (what std does, minus the randomness)
+    Sip,
+    /// every key hashes to the same value
+    Const,
+    /// only three bits of entropy
+    LowBits,
+    /// integer keys hash to themselves, other keys to the wrapping sum of their chunks
+    Identity,
+    /// `Identity` with the bits reversed
+    BitReverse,
+}
+
+impl Strategy {
+    /// parse the textual name
+    pub fn parse(s: &str) -> Option<Self> {
+        Some(match s {
+            "sip" => Strategy::Sip,
+            "const" => Strategy::Const,
+            "low_bits" => Strategy::LowBits,
+            "identity" => Strategy::Identity,
+            "bit_reverse" => Strategy::BitReverse,
+            _ => return None,
+        })
+    }
+}
+
+#[derive(Clone, Copy)]
+struct Plan {
+    strategy: Strategy,
+    seed: u64,
+    instance: u64,
+}
+
+thread_local! {
+    static PLAN: RefCell<Option<Plan>> = const { RefCell::new(None) };
+    static ENV_READ: RefCell<bool> = const { RefCell::new(false) };
+}
+
+/// Set (or clear) the hash plan of the current thread. Every map created afterwards
+/// on this thread takes `(strategy, seed, running instance number)`.
+pub fn set_hash_plan(plan: Option<(Strategy, u64)>) {
+    ENV_READ.with(|r| *r.borrow_mut() = true);
+    PLAN.with(|p| {
+        *p.borrow_mut() = plan.map(|(strategy, seed)| Plan {
+            strategy,
+            seed,
+            instance: 0,
+        })
+    });
+}
+
+fn splitmix(mut z: u64) -> u64 {
+    z = z.wrapping_add(0x9E37_79B9_7F4A_7C15);
+    z = (z ^ (z >> 30)).wrapping_mul(0xBF58_476D_1CE4_E5B9);
+    z = (z ^ (z >> 27)).wrapping_mul(0x94D0_49BB_1331_11EB);
+    z ^ (z >> 31)
+}
+
+fn next_state() -> SimBuildHasher {
+    let first = ENV_READ.with(|r| !std::mem::replace(&mut *r.borrow_mut(), true));
+    if first {
+        if let Ok(v) = std::env::var("ENUM_TOOLS_VERIF_HASH") {
+            let mut it = v.splitn(2, ':');
+            let strategy = it.next().and_then(Strategy::parse);
+            let seed = it.next().and_then(|s| s.parse::<u64>().ok());
+            if let (Some(strategy), Some(seed)) = (strategy, seed) {
+                PLAN.with(|p| {
+                    *p.borrow_mut() = Some(Plan {
+                        strategy,
+                        seed,
+                        instance: 0,
+                    })
+                });
+            }
+        }
+    }
+    PLAN.with(|p| {
+        let mut p = p.borrow_mut();
+        match p.as_mut() {
+            None => SimBuildHasher::Std(RandomState::new()),
+            Some(plan) => {
+                let k = splitmix(plan.seed ^ splitmix(plan.instance));
+                plan.instance += 1;
+                SimBuildHasher::Planned(plan.strategy, k)
+            }
+        }
+    })
+}
+
+/// The hasher state of one map instance.
+#[derive(Clone)]
+pub enum SimBuildHasher {
+    /// no plan: exactly what the shipped crate does
+    Std(RandomState),
+    /// planned
+    Planned(Strategy, u64),
+}
+
+impl SimBuildHasher {
+    /// a planned state, for harness-side recomputation of an induced order
+    pub fn planned(strategy: Strategy, seed: u64, instance: u64) -> Self {
+        SimBuildHasher::Planned(strategy, splitmix(seed ^ splitmix(instance)))
+    }
+}
+
+/// See [`SimBuildHasher`].
+pub enum SimHasher {
+    /// std
+    Std(<RandomState as BuildHasher>::Hasher),
+    /// chosen key
+    #[allow(deprecated)]
+    Sip(std::hash::SipHasher),
+    /// accumulate, post-process in `finish`
+    Acc(Strategy, u64, u64),
+}
+
+impl BuildHasher for SimBuildHasher {
+    type Hasher = SimHasher;
+    fn build_hasher(&self) -> SimHasher {
+        match self {
+            SimBuildHasher::Std(s) => SimHasher::Std(s.build_hasher()),
+            #[allow(deprecated)]
+            SimBuildHasher::Planned(Strategy::Sip, k) => {
+                SimHasher::Sip(std::hash::SipHasher::new_with_keys(*k, splitmix(*k)))
+            }
+            SimBuildHasher::Planned(s, k) => SimHasher::Acc(*s, *k, 0),
+        }
+    }
+}
+
+impl Hasher for SimHasher {
+    fn write(&mut self, bytes: &[u8]) {
+        match self {
+            SimHasher::Std(h) => h.write(bytes),
+            SimHasher::Sip(h) => h.write(bytes),
+            SimHasher::Acc(_, _, acc) => {
+                for chunk in bytes.chunks(8) {
+                    let mut b = [0u8; 8];
+                    b[..chunk.len()].copy_from_slice(chunk);
+                    *acc = acc.wrapping_add(u64::from_le_bytes(b));
+                }
+            }
+        }
+    }
+    fn finish(&self) -> u64 {
+        match self {
+            SimHasher::Std(h) => h.finish(),
+            SimHasher::Sip(h) => h.finish(),
+            SimHasher::Acc(Strategy::Const, k, _) => *k,
+            SimHasher::Acc(Strategy::LowBits, k, acc) => splitmix(*acc ^ *k) & 7,
+            SimHasher::Acc(Strategy::Identity, _, acc) => *acc,
+            SimHasher::Acc(Strategy::BitReverse, _, acc) => acc.reverse_bits(),
+            SimHasher::Acc(Strategy::Sip, _, acc) => *acc,
+        }
+    }
+}
+
+/// Drop-in for the handful of `std::collections::HashMap` methods the parser uses.
+pub struct HashMap<K, V>(std::collections::HashMap<K, V, SimBuildHasher>);
+
+impl<K: Eq + Hash, V> HashMap<K, V> {
+    /// like `std::collections::HashMap::new`, with the hasher taken from the plan
+    pub fn new() -> Self {
+        HashMap(std::collections::HashMap::with_hasher(next_state()))
+    }
+    /// with an explicit state (harness side)
+    pub fn with_state(state: SimBuildHasher) -> Self {
+        HashMap(std::collections::HashMap::with_hasher(state))
+    }
+    /// see std
+    pub fn insert(&mut self, k: K, v: V) -> Option<V> {
+        self.0.insert(k, v)
+    }
+    /// see std
+    pub fn remove<Q>(&mut self, k: &Q) -> Option<V>
+    where
+        K: Borrow<Q>,
+        Q: Hash + Eq + ?Sized,
+    {
+        self.0.remove(k)
+    }
+    /// see std
+    pub fn is_empty(&self) -> bool {
+        self.0.is_empty()
+    }
+    /// see std
+    pub fn iter(&self) -> std::collections::hash_map::Iter<'_, K, V> {
+        self.0.iter()
+    }
+}
+
+impl<K, V> IntoIterator for HashMap<K, V> {
+    type Item = (K, V);
+    type IntoIter = std::collections::hash_map::IntoIter<K, V>;
+    fn into_iter(self) -> Self::IntoIter {
+        self.0.into_iter()
+    }
+}
+
+/// Append `ident \t expansion` to the file named by `ENUM_TOOLS_VERIF_DUMP`, if set.
+pub fn dump_expansion(ident: &str, text: &str) {
+    use std::io::Write;
+    if let Ok(path) = std::env::var("ENUM_TOOLS_VERIF_DUMP") {
+        if let Ok(mut f) = std::fs::OpenOptions::new()
+            .create(true)
+            .append(true)
+            .open(path)
+        {
+            let line = format!("{}\t{}\n", ident, text.replace('\n', " "));
+            let _ = f.write_all(line.as_bytes());
+        }
+    }
+}
